@@ -3,6 +3,9 @@ use crate::core::record::Record;
 use crate::stats::Statistics;
 use crate::utils::hash::murmur3_32;
 use bytes::Bytes;
+#[cfg(feoxdb_verif)]
+use crate::verif::cache_locks::{Mutex, RwLock, RwLockWriteGuard};
+#[cfg(not(feoxdb_verif))]
 use parking_lot::{Mutex, RwLock, RwLockWriteGuard};
 use std::sync::atomic::{AtomicBool, AtomicUsize, Ordering};
 use std::sync::{Arc, Weak};
@@ -403,6 +406,11 @@ impl ClockCache {
             }
         }
         out
+    }
+
+    /// Address of a bucket's lock (the harness names the locks whose acquisitions are scheduling points).
+    pub fn verif_bucket_lock_addr(&self, bucket: usize) -> usize {
+        &self.buckets[bucket] as *const _ as usize
     }
 
     pub fn verif_bucket_of(key: &[u8]) -> usize {
